@@ -7,7 +7,7 @@
      (3 codec thr enc hdr what)      through WritePacket/ReadPacket of codec V<codec> with
                                      compression threshold thr, cipher on both sides iff enc=1;
                                      what = (0 ec) SetErrno(ec) | (1 gov) SetBody(gov)
-        observed (1 hdr body errno resend fwd) | (0)    resend = BodyToBytes of the decoded packet,
+        observed (1 hdr body errno resend fwd clone) | (0)    clone = like fwd for a Clone() of the decoded packet    resend = BodyToBytes of the decoded packet,
                                      fwd = (1 hdr body) after sending the decoded packet on again
                                      through the same codec | (0) that failed
      (4 hdr mode command arg)        request bound to a recording endpoint; mode 0 ReplyWith
@@ -210,7 +210,7 @@ Definition no_oracle (wide : Z) : oracles :=
   go_oracles (fun _ => wide) (fun _ => 0) (fun _ => []) (fun _ => None) (fun _ => []).
 
 Definition check_wire (codec thr : Z) (enc : bool) (h : hdr) (ec : option Z) (g : gov) (wide : Z)
-           (obs : option (hdr * option body * Z * option (list Z) * option (hdr * option body))) : verdict :=
+           (obs : option (hdr * option body * Z * option (list Z) * option (hdr * option body) * option (hdr * option body))) : verdict :=
   let p0 := pkt_of_hdr h BNil None in
   let p := match ec with
            | Some e => set_errno e p0
@@ -223,9 +223,20 @@ Definition check_wire (codec thr : Z) (enc : bool) (h : hdr) (ec : option Z) (g 
       (* the frame fits and must cross: a refused error code is the errno sentence failing, any
          other refused body the wire-form sentence *)
       match ec with Some _ => VPropFail 4 | None => VPropFail 3 end
-  | Some q, Some (oh, ob, oerrno, oresend, ofwd) =>
+  | Some q, Some (oh, ob, oerrno, oresend, ofwd, oclone) =>
       (* the decoded packet sent on again through the same codec *)
       let m2 := if codec =? 1 then wire_v1 tag_coders thr enc enc q else wire_v2 tag_coders thr enc enc q in
+      (* ... and a Clone() of it sent on instead *)
+      let m3 := if codec =? 1 then wire_v1 tag_coders thr enc enc (clone q) else wire_v2 tag_coders thr enc enc (clone q) in
+      let arrives_as := fun (o : option (hdr * option body)) =>
+        match o with
+        | Some (oh2, ob2) => hdr_eqb oh oh2 &&
+                             match ob, ob2 with
+                             | Some b1, Some b2 => body_eqb b1 b2
+                             | _, _ => false
+                             end
+        | None => false
+        end in
       let corr :=
         vjoin (check_that (hdr_eqb (hdr_of_pkt q) oh) (VMismatch 6))
        (vjoin (check_that (obody_eqb (pbody q) ob) (VMismatch 7))
@@ -237,17 +248,18 @@ Definition check_wire (codec thr : Z) (enc : bool) (h : hdr) (ec : option Z) (g 
                | None, None => VOk
                | _, _ => VMismatch 20
                end)))) in
+      let corr := vjoin corr
+              (match m3, oclone with
+               | Some q3, Some (oh3, ob3) =>
+                   check_that (hdr_eqb (hdr_of_pkt q3) oh3 && obody_eqb (pbody q3) ob3) (VMismatch 29)
+               | None, None => VOk
+               | _, _ => VMismatch 29
+               end) in
       let prop :=
         vjoin (check_that (match oresend with Some _ => true | None => false end) (VPropFail 3))
-       (vjoin (* "every packet a decoder can produce can be sent on again": it arrives, unchanged *)
-              (check_that (match ofwd with
-                           | Some (oh2, ob2) => hdr_eqb oh oh2 &&
-                                                match ob, ob2 with
-                                                | Some b1, Some b2 => body_eqb b1 b2
-                                                | _, _ => false
-                                                end
-                           | None => false
-                           end) (VPropFail 3))
+       (vjoin (* "every packet a decoder can produce can be sent on again": it arrives, unchanged,
+                 whether the packet itself or a Clone() of it is sent *)
+              (check_that (arrives_as ofwd && arrives_as oclone) (VPropFail 3))
               (match ec with
                | Some e => check_that (oerrno =? e) (VPropFail 4)
                | None =>
@@ -463,8 +475,8 @@ Definition check (c : sx) : verdict :=
           let obs' :=
             match obs with
             | SList [SInt 0] => Some None
-            | SList [SInt 1; oh; ob; SInt oerrno; ors; fwd] =>
-                let ofwd := match fwd with
+            | SList [SInt 1; oh; ob; SInt oerrno; ors; fwd; cl] =>
+                let parse_fwd := fun fwd => match fwd with
                             | SList [SInt 1; oh2; ob2] =>
                                 match hdr_of oh2, body_of ob2 with
                                 | Some oh2, Some ob2 => Some (Some (oh2, ob2))
@@ -473,9 +485,9 @@ Definition check (c : sx) : verdict :=
                             | SList [SInt 0] => Some None
                             | _ => None
                             end in
-                match hdr_of oh, body_of ob, rbytes_of ors, ofwd with
-                | Some oh, Some ob, Some ors, Some ofwd => Some (Some (oh, ob, oerrno, ors, ofwd))
-                | _, _, _, _ => None
+                match hdr_of oh, body_of ob, rbytes_of ors, parse_fwd fwd, parse_fwd cl with
+                | Some oh, Some ob, Some ors, Some ofwd, Some ocl => Some (Some (oh, ob, oerrno, ors, ofwd, ocl))
+                | _, _, _, _, _ => None
                 end
             | _ => None
             end in
